@@ -1271,7 +1271,22 @@ class QGen:
     def gen(self):
         self.reset()
         names = [k for k, w in self.KINDS for _ in range(w)]
-        return getattr(self, self.ch(names))()
+        r = self.rng.random()
+        if r < 0.06:
+            # a script: parameters are numbered through, each statement uses only its own
+            self.positional = False
+            k1, q1 = getattr(self, self.ch(names))()
+            k2, q2 = getattr(self, self.ch(names))()
+            return 'script', f'{q1}; {q2}'
+        kind, q = getattr(self, self.ch(names))()
+        if r < 0.16 and not self.positional and re.match(r'^(select|insert|update|delete|for) ', q):
+            # a declared but unreferenced parameter (unused WITH binding), often next to a global
+            t = self.ch(['std::str', 'std::int64', 'array<str>', 'tuple<str, int64>'])
+            v = self.var()
+            opt = self.p(0.3) and not t.startswith(('array', 'tuple'))
+            q = f'with {v} := {self.param(t, optional=opt)} {q}'
+            kind += '+unused-param'
+        return kind, q
 
 
 FIXED = {
@@ -1403,19 +1418,50 @@ select (group {LONG_T} by .{LONG_P}) {{ k := .key.{LONG_P}, n := count(.elements
 '''
 
 
+# declared-but-unreferenced parameters (an unused WITH binding is not compiled into the SQL, so the
+# parameter must end up in the `__unused_vars` CTE) next to optional globals WITH a default (one
+# query_params entry, two placeholders: value + `present__`), tuple parameters, and scripts
+FIXED['issues'] += '''
+with y := <int64>$x select global opt_g
+with unused := <str>$p select (global opt_g ?? 0, count(Issue))
+with a := <optional str>$a, b := <int64>$b select Issue { name } filter .time_estimate ?= (global opt_g)
+with t := <tuple<str, int64>>$t select (global opt_g ?? 1, global req_g)
+with u := <array<str>>$tags select (global opt_g, <str>$used)
+select <str>$a; select <int64>$b + (global opt_g ?? 0)
+select (global opt_g, <optional str>$a ?? 'x'); select (global opt_g ?? 1) + <int64>$b; select global req_g
+select (<tuple<str,int64>>$t).0; select (global opt_g ?? 0, <str>$s)
+'''
+FIXED['shop'] += '''
+with u := <optional str>$q select Order { number } filter .number > (global tenant ?? 0)
+with u := <int64>$n, v := <str>$s select (global tenant, global region)
+with z := <datetime>$d select Customer { name } filter .tier = (global tenant ?? 0) and .name = <str>$nm
+select (global tenant ?? 0) + <int64>$k; insert AuditLog { what := <str>$w }
+with unused := <int64>$u update Tracked filter .val = (global tenant ?? 0) set { val := <int64>$v }
+'''
+
+
+def load_regressions():
+    path = os.path.join(core.VERIF, 'corpus', 'C13', 'regressions.json')
+    if not os.path.exists(path):
+        return []
+    return [dict(schema=c['schema'], kind='regression', text=c['text'])
+            for c in json.load(open(path))['cases']]
+
+
 def gen_population(rng, descs, n_random):
-    """-> list of dict(schema, kind, text)"""
-    out = []
+    """-> list of dict(schema, kind, text); the regression corpus comes first"""
+    out = load_regressions()
+    have = {(o['schema'], o['text']) for o in out}
     for sname, txt in FIXED.items():
         for line in txt.strip().split('\n'):
-            if line.strip():
+            if line.strip() and (sname, line.strip()) not in have:
                 out.append(dict(schema=sname, kind='fixed', text=line.strip()))
     gens = {s: QGen(rng, d) for s, d in sorted(descs.items())}
     snames = sorted(gens)
     seen = {o['text'] for o in out}
     tries = 0
-    while len(out) < n_random + sum(len(t.strip().split('\n')) for t in FIXED.values()) \
-            and tries < n_random * 5:
+    n_fixed = len(out)
+    while len(out) < n_random + n_fixed and tries < n_random * 5:
         tries += 1
         s = rng.choice([x for x in snames if x != 'long'] * 4 + ['long'])
         try:
@@ -1628,14 +1674,29 @@ def compile_one(envm, cap: Capture, codegen, schema, text, tree_path=None):
         return dict(status='ise', err='RecursionError')
     except Exception as e:       # any other exception of the REAL compiler: an internal error, not infra
         return dict(status='ise', err=f'{type(e).__name__}: {str(e)[:300]}')
-    rec['server'] = describe_units(grp)
-    if len(cap.calls) != 1:
-        rec['status'] = 'unmodelled'
-        rec['err'] = f'{len(cap.calls)} SQL trees compiled for one statement'
-        rec['sql'] = ''
-        rec['argmap'] = []
-        return rec
-    ir, res = cap.calls[0]
+    units = describe_units(grp)
+    if not cap.calls:
+        return dict(status='unmodelled', err='no SQL tree compiled for this statement', sql='', argmap=[],
+                    server=units)
+    # a script compiles one SQL tree per statement; QueryUnits correspond to them in order
+    recs = []
+    for k, (ir, res) in enumerate(cap.calls):
+        if len(units) == len(cap.calls):
+            server = [units[k]]
+        else:
+            server = units if k == 0 else []
+        tp = None
+        if tree_path is not None:
+            tp = tree_path if k == 0 else tree_path.replace('.json.gz', f'.{k}.json.gz')
+        recs.append(statement_record(ir, res, server, codegen, tp))
+    rec = recs[0]
+    if len(recs) > 1:
+        rec['extra'] = recs[1:]
+    return rec
+
+
+def statement_record(ir, res, server, codegen, tree_path):
+    rec = {'server': server}
     src = codegen.generate(res.ast, pretty=False)
     rec['sql'] = src.text
     if tree_path is not None:
@@ -1643,6 +1704,11 @@ def compile_one(envm, cap: Capture, codegen, schema, text, tree_path=None):
         with gzip.open(tree_path, 'wt', compresslevel=1) as tf:
             json.dump(canon_tree(res.ast), tf)
     rec['sql_is_unit_sql'] = any(src.text in u['sql'] for u in rec['server'])
+    # placeholders occurring in the text the server would send (independent of the tree walk)
+    # (string literals and quoted identifiers removed first; the text is the one contained in QueryUnit.sql)
+    bare = re.sub("'(?:[^']|'')*'" + '|"(?:[^"]|"")*"', ' ', src.text)
+    rec['params_unit_text'] = sorted({int(m) for m in re.findall(r'\$(\d+)', bare)}) \
+        if rec['sql_is_unit_sql'] else None
     rec['params_codegen'] = sorted(src.param_index)
     rec['argmap'] = [[k, v.index, v.logical_index, bool(v.required)] for k, v in res.argmap.items()]
     rec['ir_params'] = [[p.name, bool(p.required), bool(p.sub_params), bool(p.is_sub_param)]
@@ -2834,6 +2900,8 @@ def run(ctx: core.Ctx):
         metas.append(dict(shard=sh, hashseed=hs, startup_s=meta['startup_s'], total_s=done['total_s']))
         for j, i in enumerate(idx):
             recs[j]['_tree'] = os.path.join(op + '.trees', f'{j}.json.gz')
+            for k, sub in enumerate(recs[j].get('extra') or [], 1):
+                sub['_tree'] = os.path.join(op + '.trees', f'{j}.{k}.json.gz')
             results.setdefault(i, {})[hs] = recs[j]
     ctx.log('workers done:', metas)
 
@@ -2847,14 +2915,24 @@ def run(ctx: core.Ctx):
     det_instances: dict = {}
     n_desc_checked = 0
     rejected_samples, ise_samples, unmodelled_samples = [], [], []
+    # one item per compiled STATEMENT (a script contributes one per statement)
+    items = []
     for i, q in enumerate(pop):
         a, b = results[i][seeds[0]], results[i][seeds[1]]
         for r in (a, b):
             if r['status'] == 'worker-error':
                 raise core.Infra(f'worker error on {q}: {r["err"]}')
+        items.append((q, a, b, qkey(q)))
+        ea, eb = a.get('extra') or [], b.get('extra') or []
+        if len(ea) != len(eb):
+            ctx.fail(f'nondet-status:{qkey(q)}', 'number of statements compiled differs between two processes',
+                     {'schema': q['schema'], 'text': q['text'], 'a': len(ea), 'b': len(eb)})
+        for k, (xa, xb) in enumerate(zip(ea, eb), 1):
+            items.append((dict(q, stmt=k), xa, xb, f'{qkey(q)}#{k}'))
+            stats['script-statements'] += 1
+    for i, (q, a, b, key) in enumerate(items):
         status_hist[a['status']] += 1
-        key = qkey(q)
-        base_detail = {'schema': q['schema'], 'text': q['text'], 'kind': q['kind']}
+        base_detail = {'schema': q['schema'], 'text': q['text'], 'kind': q['kind'], 'stmt': q.get('stmt', 0)}
         # (c) determinism: two fresh processes, different PYTHONHASHSEED
         if a['status'] != b['status']:
             ctx.fail(f'nondet-status:{key}', 'compilation outcome differs between two processes',
@@ -2882,34 +2960,31 @@ def run(ctx: core.Ctx):
             if text_differs:
                 if mask_check_scan(a['sql']) == mask_check_scan(b['sql']) and a['sql'] != b['sql'] and all(
                         mask_check_scan(ua['sql']) == mask_check_scan(ub['sql']) for ua, ub in zip(sa, sb)):
-                    classes = ['check-scan-random']
+                    # (a) the one tolerated text difference: the random literal of scan_check_ctes
+                    det_classes['text:check-scan-random'] += 1
+                    det_instances.setdefault('nondet:text:check-scan-random', []).append(
+                        inst | {'first_difference': first_diff(a['sql'], b['sql'])})
                 else:
+                    # STRICT: any other text difference is a violation; the tree diff is a diagnosis only
                     try:
                         tra, trb = load_tree(a['_tree']), load_tree(b['_tree'])
-                        classes = classify_tree_diff(tra, trb)
-                        if classes is None and inst['ir_differs'] and a.get('ir_fp_masked') is not None \
+                        diagnosis = classify_tree_diff(tra, trb)
+                        if diagnosis is None and inst['ir_differs'] and a.get('ir_fp_masked') is not None \
                                 and a.get('ir_fp_masked') == b.get('ir_fp_masked') \
                                 and min(a.get('ir_conflict_checks', 0), b.get('ir_conflict_checks', 0)) >= 2 \
                                 and coarse_ir_equal(tra, trb):
-                            classes = ['ir-conflict-check-order']
+                            diagnosis = ['ir-conflict-check-order']
                     except OSError:
-                        classes = None
-                if classes is None:
-                    det_classes['text:unclassified' + (':ir-differs' if inst['ir_differs'] else '')] += 1
-                    ctx.fail(f'nondet:text:unclassified:{key}',
-                             'recompiling the same query against the same schema in a second process gives a '
-                             'different SQL text, and the two SQL trees are NOT equal modulo any of the identified '
-                             're-orderings (' + ', '.join(ROOT_CAUSES) + ')'
-                             + ('; the IR already differs between the two processes (edgeql compiler)'
-                                if inst['ir_differs'] else ''),
-                             inst | {'first_difference': first_diff(a['sql'], b['sql']),
+                        diagnosis = None
+                    det_classes['text:VIOLATION:' + ('+'.join(diagnosis) if diagnosis else 'undiagnosed')] += 1
+                    ctx.fail(f'nondet:text:{key}',
+                             'recompiling the same query against the same schema in a second process (different '
+                             'PYTHONHASHSEED) gives a different SQL text'
+                             + (f' [diagnosis: same trees up to {", ".join(diagnosis)} — '
+                                + '; '.join(ROOT_CAUSES[c] for c in diagnosis) + ']' if diagnosis else
+                                ' [no diagnosis: not one of the formerly identified re-orderings]'),
+                             inst | {'diagnosis': diagnosis, 'first_difference': first_diff(a['sql'], b['sql']),
                                      'sql_a': a['sql'], 'sql_b': b['sql']})
-                else:
-                    det_classes['text:' + '+'.join(classes)] += 1
-                    for c in classes:
-                        det_instances.setdefault('nondet:text:' + c, []).append(
-                            inst | {'first_difference': first_diff(a['sql'], b['sql']),
-                                    'all_classes_of_this_instance': classes})
             dclasses = None
             for f, va, vb in desc_diffs:
                 if f == 'out_type_data':
@@ -2918,19 +2993,18 @@ def run(ctx: core.Ctx):
                     except Exception as e:       # the real parser under test
                         inst = inst | {'parse_error': f'{type(e).__name__}: {e}'}
             for f, va, vb in desc_diffs:
-                if dclasses and f in ('out_type_data', 'out_type_id'):
+                if dclasses == ['compound-type-fresh-id'] and f in ('out_type_data', 'out_type_id'):
+                    # (b) the one tolerated descriptor difference
                     if f == 'out_type_data':
-                        det_classes['descriptor:' + '+'.join(dclasses)] += 1
-                        for c in dclasses:
-                            det_instances.setdefault('nondet:descriptor:' + c, []).append(
-                                inst | {'field': f, 'a': va[:600], 'b': vb[:600],
-                                        'all_classes_of_this_instance': dclasses})
+                        det_classes['descriptor:compound-type-fresh-id'] += 1
+                        det_instances.setdefault('nondet:descriptor:compound-type-fresh-id', []).append(
+                            inst | {'field': f, 'a': va[:600], 'b': vb[:600]})
                     continue
-                det_classes['descriptor:unclassified'] += 1
-                ctx.fail(f'nondet:descriptor:unclassified:{f}:{key}',
-                         f'the type descriptor field {f} differs between two processes and the difference is '
-                         'not explained by the identified causes (' + ', '.join(DESCRIPTOR_ROOT_CAUSES) + ')',
-                         inst | {'field': f, 'a': va, 'b': vb})
+                det_classes['descriptor:VIOLATION'] += 1
+                ctx.fail(f'nondet:descriptor:{f}:{key}',
+                         f'the type descriptor field {f} differs between two processes'
+                         + (f' [diagnosis: {", ".join(dclasses)}]' if dclasses else ''),
+                         inst | {'field': f, 'diagnosis': dclasses, 'a': va, 'b': vb})
             for w, d in other:
                 det_classes[w] += 1
                 ctx.fail(f'nondet:{w}:{key}', f'{w} differs between two processes', inst | {'diff': d})
@@ -2943,6 +3017,10 @@ def run(ctx: core.Ctx):
                 ise_samples.append(dict(schema=q['schema'], q=q['text'], err=a['err'][:200]))
             continue
         kind_hist[q['kind']] += 1
+        if 'params_codegen' not in a:
+            stats['unmodelled'] += 1
+            stats['unmodelled:' + a.get('err', '?')[:60]] += 1
+            continue
         # (b) parameter consistency
         used = set(a['params_codegen'])
         idx_of = {k: (ix, lg) for k, ix, lg, _ in a['argmap']}
@@ -2952,12 +3030,17 @@ def run(ctx: core.Ctx):
             ctx.fail(f'param-out-of-argmap:{key}', f'SQL uses ${n} but the argmap has no such index',
                      base_detail | {'argmap': a['argmap'], 'used': sorted(used)})
         flagged = set(a['flagged_unused'])
+        in_text = set(a['params_unit_text']) if a.get('params_unit_text') is not None else None
+        if in_text is not None and in_text != used:
+            ctx.fail(f'param-text:{key}', 'placeholders in the SQL text of the QueryUnit differ from the ParamRefs '
+                     'of the SQL tree', base_detail | {'placeholders_in_text': sorted(in_text), 'tree': sorted(used)})
         for k, (ix, lg) in idx_of.items():
             if k in tuple_params:
                 continue
-            if ix not in used:
+            if ix not in used or (in_text is not None and ix not in in_text):
                 ctx.fail(f'argmap-entry-unused:{key}:{k}',
-                         f'argmap entry {k!r} (${ix}) is neither used nor listed in __unused_vars',
+                         f'the argmap binds {k!r} to ${ix}, but ${ix} occurs nowhere in the SQL text '
+                         '(neither used nor listed in the __unused_vars CTE)',
                          base_detail | {'argmap': a['argmap'], 'used': sorted(used)})
             elif ix in flagged:
                 stats['argmap-entry-flagged-unused'] += 1
@@ -2993,7 +3076,7 @@ def run(ctx: core.Ctx):
     # one report per identified root cause (at most two instances, with the count)
     for fkey, insts in sorted(det_instances.items()):
         cls = fkey.split(':', 2)[2]
-        cause = ROOT_CAUSES.get(cls) or DESCRIPTOR_ROOT_CAUSES[cls]
+        cause = ROOT_CAUSES.get(cls) or DESCRIPTOR_ROOT_CAUSES[cls]     # only the two tolerated classes get here
         ctx.fail(fkey,
                  'recompiling the same query against the same schema in a second process (different '
                  f'PYTHONHASHSEED) gives a different {"type descriptor" if "descriptor" in fkey else "SQL text"}; '
@@ -3019,9 +3102,7 @@ def run(ctx: core.Ctx):
     distinct_lines = set()
     for (kd, info), line, o in zip(qmeta, qlines, out):
         if kd == 'tree':
-            q = pop[info]
-            a = results[info][seeds[0]]
-            key = qkey(q)
+            q, a, _b, key = items[info]
             n_checked += 1
             parts = o.split(' ')
             if parts[0] == 'bad-op':
@@ -3049,10 +3130,9 @@ def run(ctx: core.Ctx):
                 samples.append(dict(schema=q['schema'], query=q['text'], sql_bytes=len(a['sql']),
                                     argmap=a['argmap'], verdict=o[:80], tree=line[:300]))
         elif kd == 'argmap':
-            a = results[info][seeds[0]]
+            q, a, _b, key = items[info]
             if o != show_argmap([tuple(x) for x in a['argmap']]):
-                q = pop[info]
-                ctx.fail(f'corr-argmap-real:{qkey(q)}', 'populate_argmap: model and implementation disagree '
+                ctx.fail(f'corr-argmap-real:{key}', 'populate_argmap: model and implementation disagree '
                          'on a real parameter list', {'schema': q['schema'], 'text': q['text'],
                                                       'real': a['argmap'], 'model': o}, no_input=True)
         else:
@@ -3071,7 +3151,7 @@ def run(ctx: core.Ctx):
         raise core.Infra(f'only {n_checked} of {len(pop)} generated queries were accepted by the compiler')
     if not samples and qmeta:
         k = tree_idx[0]
-        q = pop[qmeta[k][1]]
+        q = items[qmeta[k][1]][0]
         samples.append(dict(schema=q['schema'], query=q['text'], verdict=out[k][:80], tree=qlines[k][:300]))
 
     ctx.cov.update({
